@@ -12,10 +12,13 @@
     in the map is an offset where [parse_primary_with_options] returns Err (the `?` makes the whole
     function return Err; [parse_with_options] then falls back to the header scan or fails).
 
-    READ CAREFULLY IN THE CODE: the loop never looks at `/XRefStm`.  The only mentions of the key in
-    the crate are the two accessors [XRefStream::is_hybrid] / [get_xref_stm_offset] in
-    xref_stream.rs, and nothing calls them.  So [walk] below does not use [s_xrefstm]; the
-    ISO-shaped walk [iso_walk] does (7.5.8.4).  Existing definitions (Model.v) are unchanged. *)
+    The model is of the tree WITH  fix_c04_hybrid_xrefstm.patch : after a section whose trailer is
+    not an xref-stream dictionary and has `/XRefStm x`, the loop seeks to x, parses what is there
+    with [parse_primary_with_options] (`?`: an error ends the whole function) and merges it before
+    `/Prev` is followed; that section's own /Prev and /XRefStm are not followed and its offset does
+    not enter the visited set.  The pinned loop never looked at `/XRefStm` (the only mentions of the
+    key were the uncalled accessors [XRefStream::is_hybrid] / [get_xref_stm_offset]); it is kept as
+    [walk_pinned] so that its refutation stays a checked lemma.  Model.v is unchanged. *)
 From OxVerif Require Import Base.Util C04.Model.
 
 (** * the file *)
@@ -35,7 +38,17 @@ Arguments WOk {A} a.
 Arguments WErr {A}.
 Arguments WFuel {A}.
 
-(** the sections in the order the loop parses them *)
+(** /XRefStm is read only from a trailer that is not an xref-stream dictionary *)
+Definition xrefstm_target (r : srec) : option N :=
+  match s_sec r with Classic _ => s_xrefstm r | XStream _ _ => None end.
+(** seek to /XRefStm + parse_primary_with_options(..)?  : nothing to do / one section / Err *)
+Definition stm_parse (m : amap srec) (r : srec) : wres (list section) :=
+  match xrefstm_target r with
+  | None => WOk []
+  | Some x => match mfind x m with Some rx => WOk [s_sec rx] | None => WErr end
+  end.
+
+(** the sections in the order the loop parses (and merges) them *)
 Fixpoint walk (m : amap srec) (fuel : nat) (visited : list N) (cur : option N) : wres (list section) :=
   match cur with
   | None => WOk []                                             (* while let Some(offset) = current_offset *)
@@ -47,8 +60,13 @@ Fixpoint walk (m : amap srec) (fuel : nat) (visited : list N) (cur : option N) :
           else match mfind off m with                          (* seek + parse_primary_with_options(..)? *)
                | None => WErr
                | Some r =>
-                   match walk m k (off :: visited) (s_prev r) with   (* current_offset = prev_offset *)
-                   | WOk l => WOk (s_sec r :: l)
+                   match stm_parse m r with                    (* if let Some(stm_offset) = xref_stm_offset *)
+                   | WOk hs =>
+                       match walk m k (off :: visited) (s_prev r) with   (* current_offset = prev_offset *)
+                       | WOk l => WOk (s_sec r :: hs ++ l)
+                       | WErr => WErr
+                       | WFuel => WFuel
+                       end
                    | WErr => WErr
                    | WFuel => WFuel
                    end
@@ -67,7 +85,14 @@ Fixpoint walk_merge (m : amap srec) (fuel : nat) (visited : list N) (cur : optio
           if existsb (N.eqb off) visited then WOk merged
           else match mfind off m with
                | None => WErr
-               | Some r => walk_merge m k (off :: visited) (s_prev r) (merge_one merged (parse_section (s_sec r)))
+               | Some r =>
+                   let merged1 := merge_one merged (parse_section (s_sec r)) in
+                   match stm_parse m r with
+                   | WOk hs => walk_merge m k (off :: visited) (s_prev r)
+                                 (fold_left merge_one (map parse_section hs) merged1)
+                   | WErr => WErr
+                   | WFuel => WFuel
+                   end
                end
       end
   end.
@@ -78,6 +103,43 @@ Definition collect_sections (f : xfile) : wres (list section) :=
   walk (f_at f) (fuel_of f) [] (Some (f_start f)).
 Definition read_xref (f : xfile) : wres tbl :=
   walk_merge (f_at f) (fuel_of f) [] (Some (f_start f)) empty.
+
+(** * the pinned loop (before fix_c04_hybrid_xrefstm.patch): /XRefStm never read *)
+Fixpoint walk_pinned (m : amap srec) (fuel : nat) (visited : list N) (cur : option N) : wres (list section) :=
+  match cur with
+  | None => WOk []
+  | Some off =>
+      match fuel with
+      | O => WFuel
+      | S k =>
+          if existsb (N.eqb off) visited then WOk []
+          else match mfind off m with
+               | None => WErr
+               | Some r =>
+                   match walk_pinned m k (off :: visited) (s_prev r) with
+                   | WOk l => WOk (s_sec r :: l)
+                   | WErr => WErr
+                   | WFuel => WFuel
+                   end
+               end
+      end
+  end.
+Fixpoint walk_merge_pinned (m : amap srec) (fuel : nat) (visited : list N) (cur : option N) (merged : tbl) : wres tbl :=
+  match cur with
+  | None => WOk merged
+  | Some off =>
+      match fuel with
+      | O => WFuel
+      | S k =>
+          if existsb (N.eqb off) visited then WOk merged
+          else match mfind off m with
+               | None => WErr
+               | Some r => walk_merge_pinned m k (off :: visited) (s_prev r) (merge_one merged (parse_section (s_sec r)))
+               end
+      end
+  end.
+Definition read_xref_pinned (f : xfile) : wres tbl :=
+  walk_merge_pinned (f_at f) (fuel_of f) [] (Some (f_start f)) empty.
 
 (** the mutation "no visited set" (for the non-termination witness) *)
 Fixpoint walk_novisit (m : amap srec) (fuel : nat) (cur : option N) : wres (list section) :=
@@ -151,9 +213,15 @@ Fixpoint chain_from (m : amap srec) (cur : option N) (ch : list (N * srec)) : Pr
   | [] => cur = None
   | (o, r) :: older => cur = Some o /\ mfind o m = Some r /\ chain_from m (s_prev r) older
   end.
-Definition is_chain (f : xfile) (ch : list (N * srec)) : Prop :=
+Definition is_prev_chain (f : xfile) (ch : list (N * srec)) : Prop :=
   chain_from (f_at f) (Some (f_start f)) ch /\ NoDup (map fst ch).
+(** every /XRefStm of the chain names an offset where a section parses *)
+Definition xrefstm_ok (m : amap srec) (r : srec) : Prop :=
+  match xrefstm_target r with Some x => mfind x m <> None | None => True end.
+Definition is_chain (f : xfile) (ch : list (N * srec)) : Prop :=
+  is_prev_chain f ch /\ forall p, In p ch -> xrefstm_ok (f_at f) (snd p).
 Definition wf_chain (f : xfile) : Prop := exists ch, is_chain f ch.
+Definition wf_prev_chain (f : xfile) : Prop := exists ch, is_prev_chain f ch.
 
 (** a /Prev path of any file: from [cur] through the sections [ch] (newest first), arriving at [stop]
     ([None]: the last section has no /Prev; [Some b]: the last /Prev is [b]) *)
@@ -171,27 +239,3 @@ Definition nonhybrid (f : xfile) : Prop :=
 Definition strip_rec (r : srec) : srec := {| s_sec := s_sec r; s_prev := s_prev r; s_xrefstm := None |}.
 Definition strip (f : xfile) : xfile :=
   {| f_at := map (fun p => (fst p, strip_rec (snd p))) (f_at f); f_start := f_start f |}.
-
-(** * candidate repair (NOT the code): after a section whose trailer has /XRefStm, the stream at that
-    offset is parsed and merged before /Prev is followed *)
-Fixpoint walk_hybrid (m : amap srec) (fuel : nat) (visited : list N) (cur : option N) : wres (list section) :=
-  match cur with
-  | None => WOk []
-  | Some off =>
-      match fuel with
-      | O => WFuel
-      | S k =>
-          if existsb (N.eqb off) visited then WOk []
-          else match mfind off m with
-               | None => WErr
-               | Some r =>
-                   match walk_hybrid m k (off :: visited) (s_prev r) with
-                   | WOk l => WOk (s_sec r :: xrefstm_secs m r ++ l)
-                   | WErr => WErr
-                   | WFuel => WFuel
-                   end
-               end
-      end
-  end.
-Definition collect_sections_hybrid (f : xfile) : wres (list section) :=
-  walk_hybrid (f_at f) (fuel_of f) [] (Some (f_start f)).
